@@ -1,6 +1,252 @@
-//! Native replay of counterexamples (filled in below).
+//! `vtool witness <plan>`: public-API witness search for a solver-found table defect.
+//!
+//! Decides nothing by itself (DESIGN.md 2.4): after CBMC has refuted a T/E obligation for an
+//! automaton and the refutation has been reproduced natively, this turns it into an input a user
+//! can run: the first haystack over (alphabet + two foreign symbols), up to a length bound, on which
+//! a public search method disagrees with the brute-force occurrence oracle (or aborts/hangs).
 
-pub fn main(_args: &[String]) -> i32 {
-    eprintln!("replay: not implemented yet");
-    2
+use std::panic::{catch_unwind, AssertUnwindSafe};
+
+use daachorse::MatchKind;
+
+use crate::plan::{self, Entry, Variant};
+use crate::tables::{build_bw_pma, build_cw_pma};
+
+type M = (usize, usize, u64);
+
+fn occ(h: &[u8], start: usize, p: &[u8]) -> bool {
+    start + p.len() <= h.len() && &h[start..start + p.len()] == p
+}
+
+fn oracle(e: &Entry, h: &[u8], method: &str) -> Vec<M> {
+    let np = e.pats.len();
+    let mut by_len: Vec<usize> = (0..np).collect();
+    by_len.sort_by(|&a, &b| e.pats[b].len().cmp(&e.pats[a].len()).then(a.cmp(&b)));
+    let mut out = vec![];
+    match method {
+        "ovl" => {
+            for end in 1..=h.len() {
+                for &pi in &by_len {
+                    let pl = e.pats[pi].len();
+                    if pl <= end && occ(h, end - pl, &e.pats[pi]) {
+                        out.push((end - pl, end, e.value_num(pi)));
+                    }
+                }
+            }
+        }
+        "nosuf" => {
+            for end in 1..=h.len() {
+                for &pi in &by_len {
+                    let pl = e.pats[pi].len();
+                    if pl <= end && occ(h, end - pl, &e.pats[pi]) {
+                        out.push((end - pl, end, e.value_num(pi)));
+                        break;
+                    }
+                }
+            }
+        }
+        "find" => {
+            let mut prev = 0;
+            for end in 1..=h.len() {
+                for &pi in &by_len {
+                    let pl = e.pats[pi].len();
+                    if pl <= end - prev && occ(h, end - pl, &e.pats[pi]) {
+                        out.push((end - pl, end, e.value_num(pi)));
+                        prev = end;
+                        break;
+                    }
+                }
+            }
+        }
+        _ => {
+            let mut pos = 0;
+            let mut start = 0;
+            while start < h.len() {
+                if start >= pos {
+                    let order: Vec<usize> = if e.kind == MatchKind::LeftmostFirst {
+                        (0..np).collect()
+                    } else {
+                        by_len.clone()
+                    };
+                    for pi in order {
+                        if occ(h, start, &e.pats[pi]) {
+                            out.push((start, start + e.pats[pi].len(), e.value_num(pi)));
+                            pos = start + e.pats[pi].len();
+                            break;
+                        }
+                    }
+                }
+                start += 1;
+            }
+        }
+    }
+    out
+}
+
+enum Real {
+    Bw(daachorse::DoubleArrayAhoCorasick<u64>),
+    Cw(daachorse::CharwiseDoubleArrayAhoCorasick<u64>),
+}
+
+fn build_real(e: &Entry) -> Result<Real, String> {
+    // values are compared as u64 numbers: the witness search always builds with V = u64
+    let mut e64 = e.clone();
+    e64.vtype = "u64".into();
+    Ok(match e.variant {
+        Variant::Bytewise => Real::Bw(build_bw_pma::<u64>(&e64)?),
+        Variant::Charwise => Real::Cw(build_cw_pma::<u64>(&e64)?),
+    })
+}
+
+fn run_real(real: &Real, npats: usize, h: &[u8], method: &str) -> Result<Vec<M>, String> {
+    let cap = 4 * h.len() * npats.max(1) + 4;
+    let r = catch_unwind(AssertUnwindSafe(|| -> Result<Vec<M>, String> {
+        let mut out = vec![];
+        macro_rules! collect {
+            ($it:expr) => {
+                for m in $it {
+                    out.push((m.start(), m.end(), m.value()));
+                    if out.len() > cap {
+                        return Err("iterator does not stop".into());
+                    }
+                }
+            };
+        }
+        match real {
+            Real::Bw(pma) => match method {
+                "ovl" => collect!(pma.find_overlapping_iter(h)),
+                "nosuf" => collect!(pma.find_overlapping_no_suffix_iter(h)),
+                "find" => collect!(pma.find_iter(h)),
+                _ => collect!(pma.leftmost_find_iter(h)),
+            },
+            Real::Cw(pma) => {
+                let s = std::str::from_utf8(h).map_err(|_| "not utf8".to_string())?;
+                match method {
+                    "ovl" => collect!(pma.find_overlapping_iter(s)),
+                    "nosuf" => collect!(pma.find_overlapping_no_suffix_iter(s)),
+                    "find" => collect!(pma.find_iter(s)),
+                    _ => collect!(pma.leftmost_find_iter(s)),
+                }
+            }
+        }
+        Ok(out)
+    }));
+    match r {
+        Ok(x) => x,
+        Err(_) => Err("panic".into()),
+    }
+}
+
+pub fn main(args: &[String]) -> i32 {
+    let text = std::fs::read_to_string(&args[0]).expect("plan");
+    let maxlen: usize = args.get(1).map_or(5, |s| s.parse().unwrap());
+    let entries = plan::parse(&text);
+    std::panic::set_hook(Box::new(|_| {}));
+    for e in &entries {
+        let real = match build_real(e) {
+            Ok(r) => r,
+            Err(msg) => {
+                println!("{{\"automaton\":{},\"build_error\":{}}}", crate::jstr(&e.name), crate::jstr(&msg));
+                continue;
+            }
+        };
+        // symbols: every pattern label plus two foreign ones
+        let mut syms: Vec<Vec<u8>> = vec![];
+        match e.variant {
+            Variant::Bytewise => {
+                let mut seen = [false; 256];
+                for p in &e.pats {
+                    for &b in p {
+                        seen[b as usize] = true;
+                    }
+                }
+                for b in 0..256usize {
+                    if seen[b] {
+                        syms.push(vec![b as u8]);
+                    }
+                }
+                let foreign: Vec<u8> = (0..=255u8).filter(|b| !seen[*b as usize]).collect();
+                for f in [foreign.first(), foreign.last()].into_iter().flatten() {
+                    syms.push(vec![*f]);
+                }
+            }
+            Variant::Charwise => {
+                let mut cs: Vec<char> = vec![];
+                for p in &e.pats {
+                    for c in std::str::from_utf8(p).unwrap().chars() {
+                        if !cs.contains(&c) {
+                            cs.push(c);
+                        }
+                    }
+                }
+                for f in ['\u{2}', '\u{10FFFF}'] {
+                    if !cs.contains(&f) {
+                        cs.push(f);
+                    }
+                }
+                for c in cs {
+                    syms.push(c.to_string().into_bytes());
+                }
+            }
+        }
+        if syms.len() > 12 {
+            syms.truncate(12);
+        }
+        let methods: &[&str] = if e.kind == MatchKind::Standard {
+            &["ovl", "find", "nosuf"]
+        } else {
+            &["lm"]
+        };
+        let mut budget = 300_000usize;
+        let mut idx = vec![0usize; 0];
+        'len: for len in 1..=maxlen {
+            idx = vec![0; len];
+            loop {
+                let mut h = vec![];
+                for &i in &idx {
+                    h.extend_from_slice(&syms[i]);
+                }
+                for m in methods {
+                    let exp = oracle(e, &h, m);
+                    let got = run_real(&real, e.pats.len(), &h, m);
+                    let bad = match &got {
+                        Ok(g) => *g != exp,
+                        Err(_) => true,
+                    };
+                    if bad {
+                        println!(
+                            "{{\"automaton\":{},\"method\":{},\"haystack_hex\":\"{}\",\"haystack\":{},\"expected\":{:?},\"got\":{}}}",
+                            crate::jstr(&e.name),
+                            crate::jstr(m),
+                            plan::hex(&h),
+                            crate::jstr(&plan::show_bytes(&h)),
+                            exp,
+                            crate::jstr(&format!("{got:?}"))
+                        );
+                        return 1;
+                    }
+                }
+                budget -= 1;
+                if budget == 0 {
+                    break 'len;
+                }
+                // next index vector
+                let mut k = len;
+                loop {
+                    if k == 0 {
+                        continue 'len;
+                    }
+                    k -= 1;
+                    idx[k] += 1;
+                    if idx[k] < syms.len() {
+                        break;
+                    }
+                    idx[k] = 0;
+                }
+            }
+        }
+        let _ = idx;
+    }
+    println!("{{\"witness\":null}}");
+    0
 }
